@@ -511,6 +511,12 @@ def input_cases(tier):
             for se2 in (False, True):
                 for wire in (True, False):
                     out.append({'probe': 'input', 'rings': n, 'ducts': ducts, 'se2': se2, 'wire': wire})
+    # the flat-to-flat values of the walls may be listed in any order in the input file
+    for n in ((3,) if tier == 'quick' else (2, 3, 5)):
+        for ducts in (2, 3):
+            for form in ('outer-first', 'ducts-reversed', 'descending'):
+                for se2 in (False, True):
+                    out.append({'probe': 'input', 'rings': n, 'ducts': ducts, 'se2': se2, 'wire': True, 'ftf': form})
     return out
 
 
@@ -559,7 +565,12 @@ def run_input(c):
     V = r['violations']
     n, nd = c['rings'], c['ducts']
     dsn = S.design(n, pd=1.2, ducts=nd, wire=c['wire'], clearance='mid', oftf=0.012 * n + 0.03,
-                   duct_t=[0.002, 0.003][:nd], byp_t=[0.0025])
+                   duct_t=[0.002, 0.003, 0.0035][:nd], byp_t=[0.0025, 0.004])
+    ftf = sorted(dsn['duct_ftf'])
+    listed = {None: ftf, 'outer-first': [ftf[i + 1 - 2 * (i % 2)] for i in range(len(ftf))],
+              'ducts-reversed': [x for i in reversed(range(0, len(ftf), 2)) for x in ftf[i:i + 2]],
+              'descending': ftf[::-1]}[c.get('ftf')]
+    dsn = dict(dsn, duct_ftf=listed)
     scn = S.single(dsn, 1.0 * n, length=0.1, power={'rings': n, 'nduct': nd, 'cells': [0.0, 0.1], 'q': 100.0,
                                                      'pins': 'uniform'}, setup={'se2geo': c['se2']})
     try:
@@ -568,7 +579,7 @@ def run_input(c):
         cool = dassh.Material('sodium_se2anl_425')
         duct = dassh.Material('ht9_se2anl_425')
         rr = dassh.RoddedRegion('c08', n, dsn['pin_pitch'], dsn['pin_diameter'], dsn['wire_pitch'],
-                                dsn['wire_diameter'], dsn['clad_thickness'], dsn['duct_ftf'], 1.0 * n, cool, duct,
+                                dsn['wire_diameter'], dsn['clad_thickness'], ftf, 1.0 * n, cool, duct,
                                 None, 'CTD', 'CTD', 'CTD', 'DB', None, None, 0.05, None, 'clockwise', 1.0, c['se2'])
         ref = _geometry(rr)
     except BaseException as e:
